@@ -34,6 +34,8 @@ func init() {
 			{ID: "C20-R11", Title: "every spelling of a line break is lexed under the same conditions", Floor: 1, Run: lineEndingsTreatedAlike},
 			{ID: "C20-R12", Title: "runs of line breaks are stepped over by loops", Floor: 1, Run: newlineRunsSkippedByLoops},
 			{ID: "C20-R13", Title: "diagnostics are not built by using a message as a format (shared with C01)", Floor: 1, Run: messagesAreNotFormats},
+			{ID: "C20-R14", Title: "the lexer's cursor stops just past the input", Floor: 1, Run: cursorStopsJustPastTheInput},
+			{ID: "C20-R15", Title: "fragments parsed on their own are rebased to their place in the source", Floor: 1, Run: fragmentsAreRebased},
 		},
 	})
 }
